@@ -96,5 +96,7 @@ mod torrent_summary;
 mod tracker;
 mod use_color;
 mod verifier;
+#[cfg(feature = "verif")]
+pub mod verif;
 mod walker;
 mod xor_args;
